@@ -308,8 +308,8 @@ class Renderer:
             for l, r in zip(j['lhs'], j['rhs']):
                 a, b = self.keyvar('a', l), self.keyvar('b', r)
                 eqs = '==' if (self.rng is None or self.rng.random() < 0.7) else '='
-                if self.rng is not None and self.rng.random() < 0.3 and l is not None:
-                    a, b = b, a
+                if self.rng is not None and self.rng.random() < 0.3:
+                    a, b = b, a          # swapped sides, also when the a-side is NR / the b-side is bNR
                 pairs.append('%s %s %s' % (a, eqs, b))
             rest.append(kw(j['spelling']) + ' ' + q.get('join_table', 'b') + ' ' + kw('on') + ' ' + (' ' + kw('and') + ' ').join(pairs))
         if q.get('where') is not None:
